@@ -3,6 +3,8 @@ import LentilVerif.Lemmas.Canvas
 import LentilVerif.Lemmas.FftBridge
 import LentilVerif.Props.C01
 import LentilVerif.Gen.PlaneType
+import LentilVerif.Props.C20
+import Mathlib.Algebra.Order.Floor.Ring
 /-! # C02 — far-field propagation puts the Fraunhofer field on the right output samples
 
 Property theorems only. The integer window logic is the *generated* kernel (`Gen.dftWindow`, `Gen.maskShape`,
@@ -283,6 +285,74 @@ theorem propagateDft_common_shift {K R : Type} [CommRing R] [RealLike R] [CommRi
     rw [List.map_congr_left hterm]
     simp only [hw, Bool.false_eq_true, if_false]
     simp
+
+/-! ## The split of the shift is `np.fix`, and the mask box is the bounding box of the mask's support -/
+
+/-- **With the shift split by `np.fix`** (`tfieldOfShift`: `fix = trunc(shift)`, `sub = shift - fix`), the value at a global output
+coordinate is the Fraunhofer sum at that coordinate minus the field's real-valued shift, and the propagation window is the
+`P0 x P1` window whose centre sample sits at `trunc(shift)`. -/
+theorem propagateField_sample_shift {K R : Type} [CommRing R] [RealLike R] [TruncLike R] [Add K] [Mul K] [Zero K] [CxLike K R]
+    (hcast : ∀ n : Int, (RealLike.ofInt n : R) = (n : R))
+    (f : Fld K) (s0 s1 αr αc : R) (oe : Extent) (P0 P1 : Int)
+    (hoe : oe.rmin ≤ oe.rmax ∧ oe.cmin ≤ oe.cmax) (hP : 0 < P0 ∧ 0 < P1) (r c : Int) :
+    embO (propagateField (tfieldOfShift f s0 s1) αr αc oe P0 P1) r c =
+      if oe.inb r c && (propExtent P0 P1 (TruncLike.trunc s0) (TruncLike.trunc s1)).inb r c
+      then fraunhoferAt f αr αc (RealLike.ofInt r - s0) (RealLike.ofInt c - s1)
+      else 0 := by
+  rw [propagateField_sample hcast (tfieldOfShift f s0 s1) αr αc oe P0 P1 hoe hP r c]
+  simp only [tfieldOfShift, fixSplit]
+  have e0 : (RealLike.ofInt (r - TruncLike.trunc s0) : R) - (s0 - RealLike.ofInt (TruncLike.trunc s0)) = RealLike.ofInt r - s0 := by
+    simp only [hcast]; push_cast; ring
+  have e1 : (RealLike.ofInt (c - TruncLike.trunc s1) : R) - (s1 - RealLike.ofInt (TruncLike.trunc s1)) = RealLike.ofInt c - s1 := by
+    simp only [hcast]; push_cast; ring
+  rw [e0, e1]
+  rfl
+
+/-- the real truncation toward zero (`np.fix`): `⌊s⌋` for `s ≥ 0`, `⌈s⌉` otherwise -/
+noncomputable instance instTruncLikeReal : TruncLike ℝ := ⟨fun s => if 0 ≤ s then ⌊s⌋ else ⌈s⌉⟩
+
+/-- **`np.fix` keeps the window within one sample of the shift**: the sub-pixel part has magnitude below one and the sign of the
+shift, so the window centre `trunc(shift)` is the integer nearest to the shift on the side of zero. -/
+theorem fix_split_spec (s : ℝ) :
+    |(fixSplit s).2| < 1 ∧ (0 ≤ s → 0 ≤ (fixSplit s).2) ∧ (s ≤ 0 → (fixSplit s).2 ≤ 0) ∧
+    (RealLike.ofInt (fixSplit s).1 : ℝ) + (fixSplit s).2 = s := by
+  have hf := Int.floor_le s
+  have hf' := Int.lt_floor_add_one s
+  have hc := Int.le_ceil s
+  have hc' := Int.ceil_lt_add_one s
+  simp only [fixSplit, TruncLike.trunc, RealLike.ofInt]
+  by_cases h : 0 ≤ s
+  · simp only [h, if_true]
+    refine ⟨by rw [abs_lt]; constructor <;> linarith, fun _ => by linarith, fun h0 => ?_, by ring⟩
+    have : s = 0 := le_antisymm h0 h
+    subst this; simp
+  · have hlt : s < 0 := not_le.mp h
+    simp only [h, if_false]
+    refine ⟨by rw [abs_lt]; constructor <;> linarith, fun h0 => h0.elim, fun _ => by linarith, by ring⟩
+
+/-- **The mask box is the bounding box of the mask's support.** With `lentil.boundary(mask, threshold=0)` modelled executably (C20's
+`boundary ∘ gtMask`, proved to be the tight bounding box in `C20.boundary_is_bbox`), the output extent computed from the mask array
+contains the global coordinate of every mask sample above the threshold, and each of its four sides holds one — so the evaluated window
+is exactly the bounding box of the support, re-centred at `⌊S/2⌋`. -/
+theorem mask_extent_is_support_bbox (S0 S1 : Int) (m : Arr Bool) (oe : Extent) (h : outExtentOfMask S0 S1 (some m) = some oe) :
+    (∀ i j : Nat, (i : Int) < m.s0 → (j : Int) < m.s1 → m.get i j = true → oe.inb ((i : Int) - S0 / 2) ((j : Int) - S1 / 2) = true) ∧
+    (∃ j : Nat, (j : Int) < m.s1 ∧ m.get (oe.rmin + S0 / 2) j = true) ∧ (∃ j : Nat, (j : Int) < m.s1 ∧ m.get (oe.rmax + S0 / 2) j = true) ∧
+    (∃ i : Nat, (i : Int) < m.s0 ∧ m.get i (oe.cmin + S1 / 2) = true) ∧ (∃ i : Nat, (i : Int) < m.s0 ∧ m.get i (oe.cmax + S1 / 2) = true) := by
+  unfold outExtentOfMask at h
+  cases hb : boundary m with
+  | none => simp [hb] at h
+  | some b =>
+    simp only [hb, Option.map_some, Option.some.injEq] at h
+    subst h
+    obtain ⟨_, hcont, e1, e2, e3, e4⟩ := C20.boundary_is_bbox m b hb
+    rw [outExtent_mask]
+    refine ⟨fun i j hi hj hm => ?_, ?_, ?_, ?_, ?_⟩
+    · have := hcont i j hi hj hm
+      rw [Extent.inb_iff]; simp only; omega
+    · simpa using e1
+    · simpa using e2
+    · simpa using e3
+    · simpa using e4
 
 /-! ## Non-vacuity: the hypotheses are satisfiable by concrete, non-trivial instances -/
 section
